@@ -9,8 +9,8 @@ def run(tier, seed):
                               "StaleReconcile": ("Resolve", "Crash")},
         profiles=[("crash", 2, 200), ("crashcross", 2, 300), ("crash", 3, 80)],
         thorough_profiles=[("crash", 2, 2000), ("crashcross", 2, 2500), ("crash", 3, 800)],
-        families=[("inflight", 250), ("inflightadd", 200), ("stalehold", 200), ("staletwo", 200), ("evhold", 250), ("fwdlate", 60), ("chainsettle", 80)],
-        thorough_families=[("inflight", 2500), ("inflightadd", 2000), ("stalehold", 1500), ("staletwo", 1500), ("evhold", 2000), ("failwin", 800), ("fwdlate", 400), ("chainsettle", 400)],
+        families=[("inflight", 250), ("inflightadd", 200), ("stalehold", 200), ("staletwo", 200), ("evhold", 250), ("fwdlate", 60), ("chainsettle", 80), ("downclose", 60)],
+        thorough_families=[("inflight", 2500), ("inflightadd", 2000), ("stalehold", 1500), ("staletwo", 1500), ("evhold", 2000), ("failwin", 800), ("fwdlate", 400), ("chainsettle", 400), ("downclose", 500)],
         mc_actions=("MAdd", "MSendCS", "MSendRAA", "MDeliver", "MSave", "MCrash"),
         assumptions=cc.COMMON_ASSUMPTIONS + [
             "the ChannelManager snapshot a node restarts from was written either while none of its monitor updates was "
